@@ -120,3 +120,11 @@ package db
 //@   ensures[commit-callbacks-only-after-a-successful-commit] result == nil ==> cbRuns == old(cbRuns) + len(s.commitCallbacks)
 //@   ensures[failed-commit-runs-nothing] result != nil ==> cbRuns == old(cbRuns)
 //@   loop 0 invariant 0 <= rangeindex + 1 && rangeindex + 1 <= len(s.commitCallbacks) && cbRuns == old(cbRuns) + rangeindex + 1 && sqlCommits == old(sqlCommits) + 1 && lastSQLOK
+
+// the one place where "no rows" becomes the repository's "not found" for the look-ups that use it (C09 C11 C12 C15: the
+// callers read "not found" as "absent", any other failure must stay a failure)
+//@ func ReturnErrNotFound
+//@   props C09 C11 C12 C15
+//@   modifies nothing
+//@   ensures[no-rows-becomes-not-found] isErr(err, sql.ErrNoRows) ==> result == ErrNotFound
+//@   ensures[everything-else-is-passed-through] !isErr(err, sql.ErrNoRows) ==> result == err
